@@ -25,32 +25,47 @@ def case(title, fn, expect):
     print(("REPRODUCED " if good else "NOT REPRODUCED ") + title + " -> " + str(got))
 
 
-# C02-P-empty-frame-leaves-zero-byte-part-file / C07-P-empty-frame-append-crashes-multi-file: counter-model RowsOfFrame(i) == 0
+def repaired(title, fn, expect):
+    global ok
+    d = tempfile.mkdtemp(prefix="partf-native-")
+    try:
+        got = fn(d)
+    finally:
+        shutil.rmtree(d, ignore_errors=True)
+    good = expect(got)
+    ok = ok and good
+    print(("REPAIRED " if good else "STILL BROKEN ") + title + " -> " + str(got))
+
+
+# fixed-C02-empty-frame-zero-byte-part-file / fixed-C07-empty-frame-append-crashes (f7aae56): a frame without rows is skipped BEFORE a
+# part file is opened: no exception, no 0-byte file, the other frames are written in order, the summary is written
 def empty_fresh(d):
     try:
         write(d, df, file_scheme="hive", row_group_offsets=[0, 5])
-    except AttributeError as e:
-        return ("AttributeError", str(e), ls(d))
-    return ("no exception", ls(d))
+    except Exception as e:
+        return (type(e).__name__, str(e), ls(d))
+    return ("no exception", ls(d), "rows read", len(ParquetFile(d).to_pandas()))
 
 
 def empty_append(d):
     write(d, df, file_scheme="hive")
-    before = ls(d)
     try:
         ParquetFile(d).write_row_groups([df, df.iloc[0:0], df])
-    except AttributeError as e:
-        return ("AttributeError", str(e), "before", before, "after", ls(d), "rows read", len(ParquetFile(d).to_pandas()))
-    return ("no exception", ls(d))
+    except Exception as e:
+        return (type(e).__name__, str(e), ls(d))
+    pf = ParquetFile(d)
+    return ("no exception", ls(d), "rows read", len(pf.to_pandas()), "paths", [rg.columns[0].file_path for rg in pf.row_groups])
 
 
-case("hive write, row_group_offsets=[0, 5] on 5 rows (second frame empty)", empty_fresh,
-     lambda g: g[0] == "AttributeError" and ("part.1.parquet", 0) in g[2] and not any(n == "_metadata" for n, _ in g[2]))
-case("append of [frame, empty frame, frame] through write_row_groups", empty_append,
-     lambda g: g[0] == "AttributeError" and ("part.2.parquet", 0) in g[5] and g[7] == 5)
+repaired("hive write, row_group_offsets=[0, 5] on 5 rows (second frame empty)", empty_fresh,
+         lambda g: g[0] == "no exception" and [n for n, _ in g[1]] == ["_common_metadata", "_metadata", "part.0.parquet"]
+         and all(sz > 0 for _, sz in g[1]) and g[3] == 5)
+repaired("append of [frame, empty frame, frame] through write_row_groups", empty_append,
+         lambda g: g[0] == "no exception" and all(sz > 0 for _, sz in g[1]) and g[3] == 15
+         and g[5] == ["part.0.parquet", "part.1.parquet", "part.3.parquet"])
 
 
-# make_part_file itself: len(data) == 0 -> None, nothing written into the (already created) file
+# C02-P-make-part-file-empty-frame-leaves-file-empty (still known): make_part_file itself: len(data) == 0 -> None, nothing written into the (already created) file
 def mpf_empty(d):
     fmd = writer.make_metadata(df)
     f = io.BytesIO()
@@ -61,7 +76,7 @@ def mpf_empty(d):
 case("make_part_file(f, empty frame): returns None, file stays 0 bytes", mpf_empty, lambda g: g == (None, 0))
 
 
-# C02-P-make-part-file-default-fmd-raises: counter-model len(data) == 1.., fmd is None
+# C02-P-make-part-file-default-fmd-raises (still known): counter-model len(data) == 1.., fmd is None
 def mpf_nofmd(d):
     fmd = writer.make_metadata(df)
 
@@ -99,18 +114,6 @@ def trunc(how):
             return ("TypeError", str(e), "summary unchanged", after == before, "bytes", len(after), "rows read", rows, "files kept", ls(d) == files)
         return ("no exception",)
     return run
-
-
-def repaired(title, fn, expect):
-    global ok
-    d = tempfile.mkdtemp(prefix="partf-native-")
-    try:
-        got = fn(d)
-    finally:
-        shutil.rmtree(d, ignore_errors=True)
-    good = expect(got)
-    ok = ok and good
-    print(("REPAIRED " if good else "STILL BROKEN ") + title + " -> " + str(got))
 
 
 repaired("update_custom_metadata(pf, {'k': 5}); pf._write_common_metadata()", trunc(lambda pf: pf._write_common_metadata()),
